@@ -74,6 +74,7 @@ structure InvQ (s : State) : Prop where
   xLive : ∀ t, s.pc t = .xLoad → s.destroyed = false
   dPc : s.destroyed = true → ∀ t, s.pc t = .idle ∨ s.pc t = .xXchg ∨ s.pc t = .xLoad2
   dOne : s.destroyed = true → ∀ t u, s.pc t ≠ .idle → u ≠ t → s.pc u = .idle
+  xDone : ∀ t, s.pc t = .xXchg ∨ s.pc t = .xLoad2 → s.destroyed = true
 
 theorem InvQ.init (now : Nat) : InvQ (State.init now) := by
   constructor <;> simp [State.init]
@@ -84,6 +85,24 @@ theorem nextOk_ne_idle {p p' : Pc} (h : nextOk p p') : p ≠ .idle := by
 theorem nextOk_ne_xLoad {p p' : Pc} (h : nextOk p p') : p' ≠ .xLoad := by
   intro e; subst e
   cases p <;> simp [nextOk, Pc.isX] at h
+
+theorem nextOk_xXchg {p : Pc} (h : nextOk p .xXchg) : p = .xLoad := by
+  cases p <;> simp [nextOk, Pc.isX] at h ⊢
+
+theorem nextOk_xLoad2 {p : Pc} (h : nextOk p .xLoad2) : p = .xXchg := by
+  cases p <;> simp [nextOk, Pc.isX] at h ⊢
+
+/-- after any step of a thread nobody is about to start the destructor's first step -/
+theorem TStep.noX_after {c : Cfg} {s s' : State} {t : Nat} (h : InvQ s) (hs : TStep c s t s') :
+    ∀ u, s'.pc u ≠ .xLoad := by
+  obtain ⟨p', hpc, hok, _⟩ := hs.shape
+  have hne := nextOk_ne_idle hok
+  have hnx := nextOk_ne_xLoad hok
+  intro u; rw [hpc]
+  by_cases hu : u = t
+  · subst hu; simpa using hnx
+  · rw [upd_other _ _ hu]
+    exact fun hx => hne (h.xAlone u hx t (Ne.symm hu))
 
 theorem InvQ.act {c : Cfg} {s s' : State} {t : Nat} (h : InvQ s) (hs : TStep c s t s') : InvQ s' := by
   obtain ⟨p', hpc, hok, hd⟩ := hs.shape
@@ -133,9 +152,20 @@ theorem InvQ.act {c : Cfg} {s s' : State} {t : Nat} (h : InvQ s) (hs : TStep c s
     by_cases hat : a = t
     · subst hat; rw [upd_other _ _ hab]; exact hall b hab
     · rw [upd_other _ _ hat] at ha; exact absurd (hall a hat) ha
+  · intro u hu
+    rw [hd]
+    rw [hpc] at hu
+    by_cases hut : u = t
+    · subst hut
+      simp only [upd_same] at hu
+      rcases hu with hu | hu
+      · subst hu; rw [nextOk_xXchg hok]; simp
+      · subst hu; rw [h.xDone u (Or.inl (nextOk_xLoad2 hok))]; rfl
+    · rw [upd_other _ _ hut] at hu
+      rw [h.xDone u hu]; rfl
 
 /-- a call by an idle thread while the vector is alive and nobody is destroying it -/
-theorem InvQ.call {s s' : State} {t : Nat} (h : InvQ s) (p : Pc) (hp : p ≠ .xLoad) (hpc : s'.pc = upd s.pc t p)
+theorem InvQ.call {s s' : State} {t : Nat} (h : InvQ s) (p : Pc) (hp : p ≠ .xLoad) (hp1 : p ≠ .xXchg) (hp2 : p ≠ .xLoad2) (hpc : s'.pc = upd s.pc t p)
     (hd : s'.destroyed = s.destroyed) (hlive : s.destroyed = false) (hnox : ∀ u, s.pc u ≠ .xLoad) : InvQ s' := by
   have hnox' : ∀ u, s'.pc u ≠ .xLoad := by
     intro u; rw [hpc]
@@ -147,15 +177,23 @@ theorem InvQ.call {s s' : State} {t : Nat} (h : InvQ s) (p : Pc) (hp : p ≠ .xL
   · intro u hx; exact absurd hx (hnox' u)
   · intro hd'; rw [hd, hlive] at hd'; cases hd'
   · intro hd'; rw [hd, hlive] at hd'; cases hd'
+  · intro u hu
+    rw [hpc] at hu
+    by_cases hut : u = t
+    · subst hut; simp only [upd_same] at hu
+      rcases hu with hu | hu
+      · exact absurd hu hp1
+      · exact absurd hu hp2
+    · rw [upd_other _ _ hut] at hu; rw [hd]; exact h.xDone u hu
 
 theorem InvQ.step {c : Cfg} {s s' : State} (h : InvQ s) (hs : Step c s s') : InvQ s' := by
   cases hs
   case act t inp ls hst => exact h.act (stepThread_TStep hst)
-  case ensure t i hi hd hx => exact h.call _ (by simp) rfl rfl hd hx
-  case reserve t n hi hd hx => exact h.call _ (by simp) rfl rfl hd hx
-  case range t b e hi hd hx hbe => exact h.call _ (by simp) rfl rfl hd hx
-  case snap t k hi hd hx => exact h.call _ (by simp) rfl rfl hd hx
-  case gc t hi hd hx => exact h.call _ (by simp) rfl rfl hd hx
+  case ensure t i hi hd hx => exact h.call _ (by simp) (by simp) (by simp) rfl rfl hd hx
+  case reserve t n hi hd hx => exact h.call _ (by simp) (by simp) (by simp) rfl rfl hd hx
+  case range t b e hi hd hx hbe => exact h.call _ (by simp) (by simp) (by simp) rfl rfl hd hx
+  case snap t k hi hd hx => exact h.call _ (by simp) (by simp) (by simp) rfl rfl hd hx
+  case gc t hi hd hx => exact h.call _ (by simp) (by simp) (by simp) rfl rfl hd hx
   case destroy t hi hd =>
     constructor
     · intro u hx w hw
@@ -168,7 +206,12 @@ theorem InvQ.step {c : Cfg} {s s' : State} (h : InvQ s) (hs : Step c s s') : Inv
     · intro u _; exact hd
     · intro hd'; simp only [callDestroy] at hd'; rw [hd] at hd'; cases hd'
     · intro hd'; simp only [callDestroy] at hd'; rw [hd] at hd'; cases hd'
-  case tick d => exact ⟨h.xAlone, h.xLive, h.dPc, h.dOne⟩
+    · intro u hu
+      simp only [callDestroy] at hu
+      by_cases hut : u = t
+      · subst hut; simp at hu
+      · rw [upd_other _ _ hut, hi u] at hu; simp at hu
+  case tick d => exact ⟨h.xAlone, h.xLive, h.dPc, h.dOne, h.xDone⟩
 
 
 /-! ### blocks -/
